@@ -112,7 +112,9 @@ def harness_for(item):
             w_b = env.ite(q <= qA, 1 - _phi(env, s - a), 1 - _phi(env, (q - qA) / (2 * a)))
             # the two branches agree at q = q_A
             if env.mode == "sym":
+                env.sym_only = True
                 env.holds("branches-agree@q=qA", (~(q == qA)) | ((1 - _phi(env, s) == 1 - _phi(env, (q + qA) / (2 * a))) & (1 - _phi(env, s - a) == 1 - _phi(env, (q - qA) / (2 * a)))), key=f"{ts}:branches-agree")
+                env.sym_only = False
         env.eq("CLsb", CLsb, w_sb, key=f"{ts}:{base}:CLsb")
         env.eq("CLb", CLb, w_b, key=f"{ts}:{base}:CLb")
         env.eq("CLs", CLs, w_sb / w_b, key=f"{ts}:{base}:CLs")
